@@ -189,7 +189,9 @@ class NpProxy:
         if is_sym(x):
             return x.__ceil__()
         if isinstance(x, _np.ndarray) and x.dtype == object:
-            return _obj_map(lambda e: e.__ceil__() if is_sym(e) else math.ceil(e), x)
+            for hook in CEIL_HOOKS:
+                hook(x)
+            return _obj_map(lambda e: e.__ceil__() if is_sym(e) else math.ceil(e), x).view(SymArray)
         return _np.ceil(x)
 
     def floor(self, x):
@@ -308,6 +310,15 @@ class NpProxy:
                     c[i, j] = sum(D[i, k] * D[j, k] for k in range(n)) / (n - ddof)
             return c if c.shape != (1, 1) else c[0, 0]
         return _np.cov(m, y=y, rowvar=rowvar, bias=bias, ddof=ddof, **kw)
+
+
+class SymArray(_np.ndarray):
+    """object ndarray whose astype(int/float) keeps symbolic entries (np.ceil(...).astype(int) in rpylib)"""
+
+    def astype(self, dtype, *a, **kw):
+        if _has_sym(_np.asarray(self)) and (_int_dtype(dtype) or _float_dtype(dtype)):
+            return self
+        return _np.asarray(self).astype(dtype, *a, **kw)
 
 
 def _obj_map(f, x):
@@ -488,6 +499,7 @@ class RandomProxy:
 
 
 POISSON_MAX = [2]
+CEIL_HOOKS = []
 
 
 # --------------------------------------------------------------------------------------
